@@ -368,7 +368,7 @@ int main(int argc, char** argv)
   std::vector<Op> alpha;
   for (int i = 0; i < 3; i++)
     for (char k : { 'a', 'b', 'f', 'd', 'r', 'u', 'i' }) alpha.push_back({ k, i });
-  int depth = thorough ? 8 : 6;
+  int depth = thorough ? 10 : 6;
   std::deque<std::vector<Op>> frontier;
   std::unordered_set<std::string> seen;
   frontier.push_back({});
